@@ -4,7 +4,8 @@ import B6.Model.Validate
 /-!
 Driver for C37 — every feature in a world is valid.
 
-feature  `p1=;loc=3` | `p1=;noloc` | `w10=p1,p2,p3,p1` | `a20=w10,w11` | `r1=p1,w10` | `c1=…`
+feature  `p1=;loc=3` | `p1=;noloc` | `w10=p1,@7,p3,p1` (`@7` inline point at slot 7) |
+         `a20=w10,w11|*|w12` (polygons separated by `|`, `*` explicit polygon) | `r1=p1,w10` | `c1=…`
 ops
   `oracle [<slots>=<v|i><c|w> …]`   what S2 says about the loop through the slots (`1.2.3`): valid /
                                     invalid, counter-clockwise / clockwise; answer `ok`. The table
@@ -22,6 +23,16 @@ open B6.Driver B6.Driver.SkelIO B6.Model.Validate
 namespace B6.Driver.C37
 abbrev Id := B6.Model.Validate.Id
 
+/-- a path element: `p3` (point reference) or `@5` (inline point at slot 5 = pseudo-ID `(9, 5)`) -/
+def parseElem (s : String) : Option Id :=
+  if s.startsWith "@" then (parseNat? (sdrop s 1)).map fun k => (9, k) else parseId s
+
+def renderElem (i : Id) : String := if i.1 == 9 then "@" ++ toString i.2 else renderId i
+
+/-- an area's polygons: `w10,w11|*|w12` (`*` = explicit polygon, no path IDs) -/
+def parsePolys (s : String) : Option (List (List Id)) :=
+  (s.splitOn "|").mapM fun p => if p == "*" then some [] else (splitComma p).mapM parseId
+
 def parseFeat (s : String) : Option Feat :=
   match s.splitOn ";" with
   | [] => none
@@ -29,12 +40,11 @@ def parseFeat (s : String) : Option Feat :=
     match head.splitOn "=" with
     | [a, b] => do
       let id ← parseId a
-      let refs ← parseIdsComma b
       let loc := (attrs.filterMap fun a => if a.startsWith "loc=" then parseNat? (sdrop a 4) else none).head?
       if id.1 == 0 then some ⟨id, .point loc⟩
-      else if id.1 == 1 then some ⟨id, .path refs⟩
-      else if id.1 == 2 then some ⟨id, .area (refs.map fun r => [r])⟩
-      else some ⟨id, .other refs⟩
+      else if id.1 == 1 then do let es ← (splitComma b).mapM parseElem; some ⟨id, .path es⟩
+      else if id.1 == 2 then do let ps ← parsePolys b; some ⟨id, .area ps⟩
+      else do let refs ← parseIdsComma b; some ⟨id, .other refs⟩
     | _ => none
 
 def renderFeat (f : Feat) : String :=
@@ -42,8 +52,8 @@ def renderFeat (f : Feat) : String :=
   match f.geo with
   | .point (some k) => renderId f.id ++ "=;loc=" ++ toString k
   | .point none => renderId f.id ++ "=;noloc"
-  | .path refs => renderId f.id ++ "=" ++ ids refs
-  | .area polys => renderId f.id ++ "=" ++ ids polys.flatten
+  | .path refs => renderId f.id ++ "=" ++ ",".intercalate (refs.map renderElem)
+  | .area polys => renderId f.id ++ "=" ++ "|".intercalate (polys.map fun p => if p.isEmpty then "*" else ids p)
   | .other refs => renderId f.id ++ "=" ++ ids refs
 
 def parseFeats (s : String) : Option (List Feat) := do
